@@ -69,6 +69,8 @@ def programs(tier, pid):
     P11 = mkprog("P11", [T("L", lit=["f.txt"]), T("G", deps=["L"]), T("K", lit=["f.txt"], deps=["G"])], ["f.txt", "s.txt"], init={"f.txt": 0, "s.txt": 1},
                  reqsets=[["K"], ["L"], ["G"]], failsets=[[], ["K"]])
     P11["effects"] = {"G": [["f.txt", "=s.txt"]]}
+    # dependency files whose names contain glob metacharacters other than '*' (a Next.js page, a template): they are literal files
+    P12 = mkprog("P12", [T("A", lit=["p[1].txt", "a.txt"]), T("B", lit=["q{x}.txt"])], ["p[1].txt", "a.txt", "q{x}.txt"])
     P7 = mkprog("P7", [T("A", lit=["a.txt"]), T("B", lit=["b.txt"]), T("D", lit=["a.txt", "b.txt"], deps=["A", "B"])], ["a.txt", "b.txt"])
     if pid == "C10":
         # kill points multiply the alphabet: smaller programs
@@ -88,11 +90,11 @@ def programs(tier, pid):
             p["failsets"] = [[]] + [[n] for n in names]
         return ps
     if tier == "quick":
-        ps = [P1, P5, P4] if pid == "C14" else [P1, P3, P4, P2, P8, P9, P10, P11]
+        ps = [P1, P5, P4] if pid == "C14" else [P1, P3, P4, P2, P8, P9, P10, P11, P12]
     else:
         for p in (P1, P3, P5, P7):
             p["ncontents"] = 3
-        ps = [P1, P2, P3, P4, P5, P6, P7, P8, P9, P10, P11]
+        ps = [P1, P2, P3, P4, P5, P6, P7, P8, P9, P10, P11, P12]
         for p in ps:
             p["reps"] = 4
     return ps
@@ -172,7 +174,7 @@ def human(edges):
         elif e["act"] == "rmcache":
             out.append("rm .spok")
         elif e["act"] == "tear":
-            out.append("tear cache.json to %d bytes" % e["k"])
+            out.append("tear cache.json to %d bytes" % e["k"] if e["k"] > -100 else "leave an empty .spok/cache.json%s behind (kill inside a cache write)" % {-101: ".tmp", -102: ".lock"}[e["k"]])
         else:
             s = "spok %s%s" % (" ".join(e["req"]), " --force" if e["force"] else "")
             if e["failing"]:
@@ -212,6 +214,8 @@ def guided_histories(prog):
     if prog["crash"]:
         twists += [[run(crash={"kind": "event", "k": k})] for k in range(1, 13)] + [[run(crash={"kind": "cmd", "k": j})] for j in range(1, 2 * len(tasks) + 1)]
         twists += [[run(), {"act": "tear", "k": k}] for k in (0, 1, 20, 60, 100)]
+        # what a kill inside an "atomic" cache write leaves behind: an empty temporary / lock file next to the cache file (k = -101, -102)
+        twists += [[run(), {"act": "tear", "k": k}] for k in (-101, -102)] + [[{"act": "tear", "k": k}, run()] for k in (-101, -102)]
     out = []
     for f in prog["files"]:
         c0 = prog["init"].get(f, 0)
@@ -254,7 +258,7 @@ def random_walks(ctx, driver, prog, invs, nwalks, length):
             elif x < 0.42:
                 acts.append({"act": "rmcache"})
             elif x < 0.52 and prog["crash"]:
-                acts.append({"act": "tear", "k": rnd.choice([0, 1, 2, 5, 20, 40, 60, 90, 100, 120, 150])})
+                acts.append({"act": "tear", "k": rnd.choice([0, 1, 2, 5, 20, 40, 60, 90, 100, 120, 150, -101, -102])})
             else:
                 a = {"act": "invoke", "req": rnd.choice(prog["reqsets"]), "force": rnd.random() < 0.25, "failing": rnd.choice(prog["failsets"] + [["!" + t for t in es] for es in prog.get("errsets", [])]) if rnd.random() < 0.3 else [],
                      "crash": {"kind": "", "k": 0}}
@@ -333,6 +337,7 @@ def run(ctx):
     # protocol model (design level) + spec->code replay
     mc = model_check(ctx, progs)
     killval = binary_kill_validation(ctx) if pid == "C10" else None
+    forceval = binary_force_validation(ctx) if pid == "C14" else None
     # binding self-test: flip one recorded skipped flag / add a phantom skip -> TLC must reject
     st = selftest(ctx, results, progs, invs)
     for res, prog in zip(results, progs):
@@ -383,6 +388,7 @@ def run(ctx):
         "judge": {"module": "SpokRunTrace", "invariants": invs},
         "protocol_model": mc,
         "binary_kill_validation": killval,
+        "binary_force_validation": forceval,
         "selftest_corrupted_graph_rejected": st,
         "exhaustive": True,
     }, assumptions=["ideal digest (injective in the set of (path, content) pairs): discharged for the real digest by C04",
@@ -434,6 +440,13 @@ def model_check(ctx, progs):
 
 def replay(ctx, path):
     rp = json.load(open(path))
+    if rp.get("family") in ("run-binary", "run-binary-force"):
+        # process-level stages are short: re-run the stage; it reports through vlib.report if the violation is still there
+        n0 = len(ctx.violations)
+        (binary_kill_validation if rp["family"] == "run-binary" else binary_force_validation)(ctx)
+        if len(ctx.violations) == n0:
+            log("history no longer violates %s at the process level" % ctx.pid)
+        return
     driver = vlib.build_driver(ctx)
     invs = INVS[ctx.pid]
     r2, g2 = replay_history(ctx, driver, rp["program"], rp["actions"], invs)
@@ -536,6 +549,91 @@ def binary_kill_validation(ctx):
                     {"property": "C10", "family": "run-binary", "invariant": r.violated, "history": human(edges), "scenario": "binary kill validation"})
     log("binary kill validation: %d histories with a real SIGKILL of the spok process judged by SpokRunTrace: %s" % (len(hists), r.violated or "hold"))
     return {"histories": len(hists), "real_sigkills": nkilled, "tlc_states": r.distinct, "result": r.violated or "holds"}
+
+
+# ------------------------------------------------------------------ C14 at the process level: --force through the command line
+def binary_force_validation(ctx):
+    """--force reaches the run loop through the command-line layer, which also chooses the tasks when none is named (the task called
+    `default`).  A few histories with the built binary as user nobody -- named and unnamed requests, forced and not, warm cache -- are
+    turned into the same graph format and judged by the same SpokRunTrace invariants (the ground truth of execution is the side-effect
+    log written by the commands, the reports come from --json)."""
+    import fam_cli
+    prog = mkprog("D1", [T("A", lit=["a.txt"]), T("default", lit=["b.txt"], deps=["A"])], ["a.txt", "b.txt"])
+    LOG = "@LOG@"
+    text = ""
+    for t, args in (("A", '"a.txt"'), ("default", '"b.txt", A')):
+        text += 'task %s(%s) {\n    echo %s.1 >> %s\n    echo %s.2 >> %s\n}\n\n' % (t, args, t, LOG, t, LOG)
+
+    def content(c):
+        return "content-%d\n" % c
+    # ("run", names on the command line, force): no names = spok picks the task called default
+    R = lambda names, force=False: ("run", names, force)
+    hists = [[R([]), R([], True), R([])],
+             [R(["default"]), R([], True), R([], True)],
+             [R([]), R(["default"], True), R([])],
+             [R(["A"]), R([], True), R([])],
+             [R([]), ("edit", "a.txt", 1), R([], True), ("edit", "a.txt", 0), R([])],
+             [R([]), ("edit", "b.txt", 1), R([], True), ("edit", "b.txt", 0), R(["default"])],
+             [R([], True), R([])],
+             [R([]), R(["A"], True), R(["A"])]]
+    scen = []
+    for k, h in enumerate(hists):
+        files = [{"p": "proj/", "dir": True}, {"p": "proj/spokfile", "c": text}, {"p": "proj/a.txt", "c": content(0)}, {"p": "proj/b.txt", "c": content(0)}]
+        steps, pending = [], []
+        for a in h:
+            if a[0] == "edit":
+                pending.append({"p": "proj/" + a[1], "c": content(a[2])})
+            else:
+                steps.append({"cwd": "proj", "argv": a[1] + (["--force"] if a[2] else []) + ["--json"], "env": {}, "write": pending})
+                pending = []
+        scen.append({"id": k + 1, "files": files, "steps": steps})
+    raw = fam_cli.drive(ctx, scen, "force")
+    nodes = [{"id": 0, "fs": {"a.txt": 0, "b.txt": 0}, "cache": "none", "out": []}]
+    nforced = 0
+    for h, r in zip(hists, raw):
+        fs = {"a.txt": 0, "b.txt": 0}
+        nodes[0]["out"].append(blank_edge("reset", len(nodes)))
+        si = 0
+        for a in h:
+            n = {"id": len(nodes), "fs": dict(fs), "cache": "ok", "out": []}
+            if a[0] == "edit":
+                fs[a[1]] = a[2]
+                e = blank_edge("edit", len(nodes) + 1)
+                e.update(f=a[1], c=a[2])
+            else:
+                st = r["steps"][si]
+                si += 1
+                e = blank_edge("invoke", len(nodes) + 1)
+                ran = []
+                for t in ("A", "default"):
+                    ms = [m for m in st["effects"] if m.startswith(t + ".")]
+                    if ms:
+                        ran.append((min(st["effects"].index(m) for m in ms), {"t": t, "n": len(ms), "ok": len(ms) == 2}))
+                try:
+                    reports = [{"t": d["task"], "skipped": d["skipped"], "nres": len(d.get("results") or [])} for d in json.loads(st["stdout"])] if st["exit"] == 0 else []
+                except Exception:
+                    raise Machinery("binary force validation: --json output of a successful run is not a JSON document: %r" % st["stdout"][:200])
+                if st["exit"] < 0:
+                    raise Machinery("binary force validation: spok was killed or timed out")
+                nforced += 1 if a[2] else 0
+                e.update(req=a[1] or ["default"], force=a[2], failing=[], reports=reports, ran=[x[1] for x in sorted(ran, key=lambda x: x[0])],
+                         outcome="normal" if st["exit"] == 0 else "error", errcls="none" if st["exit"] == 0 else "other", killed=False,
+                         at="spok %s" % " ".join(a[1] + (["--force"] if a[2] else [])))
+            n["out"].append(e)
+            nodes.append(n)
+        nodes.append({"id": len(nodes), "fs": dict(fs), "cache": "ok", "out": []})
+    d = ctx.sub("forceval")
+    json.dump(prog, open(os.path.join(d, "program.json"), "w"))
+    vlib.write_ndjson(os.path.join(d, "graph.ndjson"), nodes)
+    r = judge(ctx, d, ["Inv_C14a", "Inv_C14b", "Inv_C01", "Inv_C02", "Inv_SkipRan"], workers=2, timeout=600)
+    if r.violated:
+        edges = [e for e in actions_from_trace(nodes, r.trace) if e["act"] != "reset"]
+        hist = "; ".join((e["at"] + " => " + (", ".join("%s:%s" % (x["t"], "skipped" if x["skipped"] else "ran") for x in e["reports"]) or e["outcome"])) if e["act"] == "invoke"
+                         else "%s:=c%d" % (e["f"], e["c"]) for e in edges)
+        vlib.report(ctx, "%s:binary-force:%s" % (r.violated, hist[:200]), "%s violated at the process level (--force through the command line): %s" % (r.violated, hist),
+                    {"property": "C14", "family": "run-binary-force", "invariant": r.violated, "history": hist, "scenario": "binary force validation"})
+    log("binary force validation: %d histories (%d forced invocations, named and unnamed requests) judged by SpokRunTrace: %s" % (len(hists), nforced, r.violated or "hold"))
+    return {"histories": len(hists), "forced_invocations": nforced, "tlc_states": r.distinct, "result": r.violated or "holds"}
 
 
 def blank_edge(act, dst):
